@@ -12,6 +12,18 @@ import (
 
 func (fr *Frame) call(cc *ssa.CallCommon, instr ssa.Value, rt types.Type) *Value {
 	x := fr.x
+	if len(x.proxies) > 0 {
+		if _, isBuiltin := cc.Value.(*ssa.Builtin); !isBuiltin {
+			for _, pr := range x.proxies {
+				x.syncProxy(fr.cur, pr, true)
+			}
+			defer func() {
+				for _, pr := range x.proxies {
+					x.syncProxy(fr.cur, pr, false)
+				}
+			}()
+		}
+	}
 	if rt == nil {
 		rt = cc.Signature().Results()
 	}
